@@ -107,6 +107,19 @@ theorem keyonly_stopped_visit_reads_no_value (f : Bytes) (bound : Nat) (cmp : By
   exact ⟨out, b', c', rds, e, fun rd hrd => allowed_false_no_touch (h rd hrd) rng hd⟩
 
 open Gkv.Cache in
+/-- all of it in one statement: ANY history of key-only lookups, Min/Max, evictions and key-only
+    range visits (run to the end or stopped anywhere), in any order, from any cached view, reads no
+    byte outside node records and header+key ranges of the tree -/
+theorem keyonly_mixed_history_reads_no_value (f : Bytes) (bound : Nat) (cmp : Bytes → Bytes → Ordering)
+    (fuel : Nat) (T : Tree) (hc : T.Coherent f bound) (hf : T.height < fuel)
+    (ops : List COp2) (hk : ∀ op ∈ ops, op.wv = false) (c : CTree) (hr : Rep c T)
+    (rng : Nat × Nat) (hd : KeyDisjoint rng T) :
+    ∃ outs c' rds, runC2 f cmp fuel ops c = some (outs, c', rds) ∧
+      ∀ rd ∈ rds, ¬ rd.touches rng := by
+  obtain ⟨outs, c', rds, e, _, h⟩ := runC2_keyonly_reads f bound cmp fuel T hc hf ops c hr hk
+  exact ⟨outs, c', rds, e, fun rd hrd => allowed_false_no_touch (h rd hrd) rng hd⟩
+
+open Gkv.Cache in
 /-- non-vacuity / discrimination: on a one-item file the cold key-only lookup reads the node record,
     the header and the key — and the lookup with the value also reads the value bytes -/
 example :
